@@ -38,7 +38,7 @@ func (s *rawHTMLParser) Parse(parent ast.Node, block text.Reader, pc Context) as
 	if bytes.HasPrefix(line, openProcessingInstruction) {
 		return s.parseUntil(block, closeProcessingInstruction, pc)
 	}
-	if len(line) > 2 && line[1] == '!' && line[2] >= 'A' && line[2] <= 'Z' {
+	if len(line) > 2 && line[1] == '!' && util.IsAlphaNumeric(line[2]) && !util.IsNumeric(line[2]) {
 		return s.parseUntil(block, closeDecl, pc)
 	}
 	if bytes.HasPrefix(line, openCDATA) {
